@@ -354,6 +354,9 @@ def _add(module: Module, val: ModuleAttr) -> ModuleAttr:
         ):
             if ctr.get(val.name, None) is prior:
                 ctr.pop(val.name)
+        if prior is not val:
+            # No longer ours. Anything still connected to it now refers to an orphan.
+            prior._parent_module = None
 
     # Add it to the module namespace, and the type-specific container
     type_ctr[val.name] = val
